@@ -505,6 +505,59 @@ fn noise_probe(a: &mut Args) -> String {
 	format!("{} {} {}", fwd.0, fwd.1, fwd.2)
 }
 
+/// fulfill_attribution_battery <max_hops>: for every path length 1..=max_hops: every hop, last first, processes the
+/// fulfil attribution data under its real shared secret, reporting its own hold time; the sender then decodes it with
+/// decode_fulfill_attribution_data and must read the hold times of the first min(n, 20) hops, in order.
+/// Output: `<path lengths that decoded wrongly> <lengths tried>`.
+fn fulfill_attribution_battery(a: &mut Args) -> String {
+	use bitcoin::secp256k1::{PublicKey, Secp256k1, SecretKey};
+	use lightning::ln::onion_utils::verif_hooks as h;
+	use lightning::routing::router::{Path, RouteHop};
+	use lightning::types::features::{ChannelFeatures, NodeFeatures};
+	struct NoLog;
+	impl lightning::util::logger::Logger for NoLog {
+		fn log(&self, _record: lightning::util::logger::Record) {}
+	}
+	let max = a.usize();
+	let secp = Secp256k1::new();
+	let (mut bad, mut total) = (0u32, 0u32);
+	for n in 1..=max {
+		total += 1;
+		let r = catch_unwind(AssertUnwindSafe(|| {
+			let hops: Vec<RouteHop> = (0..n)
+				.map(|i| {
+					let mut sk = [0u8; 32];
+					sk[0] = (i + 1) as u8;
+					RouteHop {
+						pubkey: PublicKey::from_secret_key(&secp, &SecretKey::from_slice(&sk).unwrap()),
+						node_features: NodeFeatures::empty(),
+						short_channel_id: i as u64,
+						channel_features: ChannelFeatures::empty(),
+						fee_msat: 0,
+						cltv_expiry_delta: 0,
+						maybe_announced_channel: true,
+					}
+				})
+				.collect();
+			let path = Path { hops, blinded_tail: None };
+			let session = SecretKey::from_slice(&[3u8; 32]).unwrap();
+			let secrets = h::hop_shared_secrets(&path, &session);
+			let hold = |i: usize| 1000 + 7 * i as u32;
+			let mut data = None;
+			for i in (0..n).rev() {
+				data = Some(h::process_fulfill(data, &secrets[i], hold(i)));
+			}
+			let got = h::decode_fulfill(&NoLog, &path, &session, data.unwrap());
+			let want: Vec<u32> = (0..core::cmp::min(n, h::MAX_HOPS)).map(hold).collect();
+			got == want
+		}));
+		if !matches!(r, Ok(true)) {
+			bad += 1;
+		}
+	}
+	format!("{} {}", bad, total)
+}
+
 /// peer_framing_probe <nfrag> <frag>* <nmsgs> <len>*
 /// For every fragment size given: two real PeerManagers (public API only) connected through in-memory sockets. Every byte either side writes -
 /// handshake acts, Init, and then <nmsgs> custom messages (type 32769, payload of the given lengths, byte value =
@@ -1338,6 +1391,7 @@ fn dispatch(name: &str, a: &mut Args) -> String {
 		"route_mpp_overpay_probe" => route_mpp_overpay_probe(a),
 		"route_validity_probe" => route_validity_probe(a),
 		"noise_probe" => noise_probe(a),
+		"fulfill_attribution_battery" => fulfill_attribution_battery(a),
 		"peer_framing_probe" => peer_framing_probe(a),
 		"init_first_probe" => init_first_probe(a),
 		"spv_probe" => spv_probe(a),
